@@ -824,7 +824,10 @@ Section CacheProofs.
     (forall m, In m (hnames (c_heap C s)) <-> In m (keys (c_entries C s))).
 
   Lemma inv_accounting s : Inv s -> accounting s.
-  Proof. intros [I1 I2 I3 I4 I5 I6 I7 I8]. unfold accounting. repeat split; try assumption; try apply I6; apply I3. Qed.
+  Proof.
+    intros [I1 I2 I3 I4 I5 I6 I7 I8]. unfold accounting.
+    split; [exact I5|]. split; [exact I6|]. split; [exact I4|]. split; [exact I1|]. split; [exact I2 | exact I3].
+  Qed.
 
   Theorem accounting_all_histories d0 mx ops :
     disk_ok C K d0 -> 0 <= mx -> Forall op_ok ops ->
